@@ -403,8 +403,25 @@ impl TypeChecker {
             return;
         }
 
+        // A plain `x = value` in a nested block re-assigns an `x` bound in an enclosing block of the same function
+        // (this is how lowering treats it): the outer binding must be mutable, at any nesting depth.
+        let outer_mutability = if matches!(assign.binding, BindingKind::Let | BindingKind::Mutable) {
+            None
+        } else {
+            self.symbols
+                .lookup_in_function(&assign.name)
+                .and_then(|id| self.symbols.get(id))
+                .and_then(|sym| match &sym.kind {
+                    SymbolKind::Variable(var_info) => Some(var_info.is_mutable),
+                    _ => None,
+                })
+        };
+        if outer_mutability == Some(false) {
+            self.errors.push(errors::mutation_without_mut(&assign.name, span));
+        }
+
         // New binding
-        let is_mutable = matches!(assign.binding, BindingKind::Mutable);
+        let is_mutable = matches!(assign.binding, BindingKind::Mutable) || outer_mutability == Some(true);
 
         // Tuples are immutable - disallow `mut` on tuple bindings
         if is_mutable && matches!(value_ty, ResolvedType::Tuple(_)) {
